@@ -214,6 +214,9 @@ pub fn run(cfg: &Cfg, rep: &mut Rep) {
     let mut i = 0usize;
     let lats: Vec<Vec<i128>> = SCALES.iter().map(|s| gen::reading_lattice(*s, &w.leap)).collect();
     for (si, s) in SCALES.iter().enumerate() {
+        if cfg.fuzz {
+            break;
+        }
         for (j, &e_c) in lats[si].iter().enumerate() {
             i += 1;
             if i % n != sh {
@@ -228,6 +231,7 @@ pub fn run(cfg: &Cfg, rep: &mut Rep) {
     let mut r = Rng::new(cfg.seed, 0x0400 + sh as u64);
     let nrand = cfg.budget(6_000_000);
     for k in 0..nrand {
+        let k = cfg.k(k, &mut r);
         let si = r.below(9) as usize;
         let s = SCALES[si];
         let e_c = if r.chance(1, 8) { gen::rand_count_within(&mut r, 30000 * NPC) } else { gen::rand_reading(&mut r, s, &lats[si]) };
